@@ -1860,7 +1860,18 @@ impl<K: KeyT, V: ValT, const N: usize> Sys for MapSys<K, V, N> {
             real.sort();
             let mut want = b.model.entries();
             want.sort();
-            if real != want || pl::violation_count() > 0 {
+            // ... or left objects alive / destroyed that the model places elsewhere (e.g. a swapped key
+            // identity hidden behind a later drain)
+            let mut own_ok = true;
+            if K::LEDGER || V::LEDGER {
+                let mut must: Vec<u32> = b.model.stored_ids();
+                if K::LEDGER {
+                    must.extend(b.probes.iter().map(|p| p.kd().id));
+                }
+                let live = pl::live_ids();
+                own_ok = must.iter().all(|id| live.contains(id)) && live.iter().all(|id| must.contains(id) || b.leaked.contains(id));
+            }
+            if real != want || !own_ok || pl::violation_count() > 0 {
                 diverged = true;
                 pl::take_violations();
                 cx.class("history: prefix diverged from the model (judged at the shorter history)");
